@@ -848,6 +848,18 @@ func (e *Enc) writeSetOf(instrs []ssa.Instruction, inRegion func(ssa.Instruction
 				ws.sorts[d], ws.sorts[v] = ws.coarse[d], ws.coarse[v]
 			case *ssa.Call:
 				ws.alloc = true
+				if x.Call.IsInvoke() {
+					recvT := x.Call.Value.Type()
+					name := "iface:" + types.TypeString(recvT, func(p *types.Package) string { return "" }) + "." + x.Call.Method.Name()
+					if fc := e.p.cs.Funcs[name]; fc != nil {
+						e.staticSelf = map[string]types.Type{"self": recvT}
+						for _, t := range fc.Mod {
+							e.targetWrites(ws, x, nil, t)
+						}
+						e.staticSelf = nil
+					}
+					continue
+				}
 				if callee := x.Call.StaticCallee(); callee != nil {
 					if fc := e.p.cs.Funcs[funcName(callee)]; fc != nil {
 						calls = append(calls, pendingCall{x, fc})
@@ -949,6 +961,14 @@ func (e *Enc) targetWrites(ws *writeSet, call *ssa.Call, callee *ssa.Function, t
 	typeOf := func(x Expr) types.Type { return e.staticType(callee, x) }
 	if t.Ghost {
 		bt := typeOf(t.Base)
+		if n, isNamed := bt.(*types.Named); isNamed {
+			if _, isIface := n.Underlying().(*types.Interface); isIface {
+				for _, f := range e.p.ghostFields(n.Obj().Name(), t.Field) {
+					ws.coarse["G."+n.Obj().Name()+"."+f] = arrSort(e.p.cs.Ghosts[n.Obj().Name()+"."+f])
+				}
+				return
+			}
+		}
 		if bt != nil {
 			d, _ := derefType(bt)
 			si := e.reg.structOf(d)
@@ -1002,10 +1022,15 @@ func (e *Enc) targetWrites(ws *writeSet, call *ssa.Call, callee *ssa.Function, t
 func (e *Enc) staticType(fn *ssa.Function, x Expr) types.Type {
 	switch x := x.(type) {
 	case *EIdent:
-		for _, p := range fn.Params {
-			if p.Name() == x.Name {
-				return p.Type()
+		if fn != nil {
+			for _, p := range fn.Params {
+				if p.Name() == x.Name {
+					return p.Type()
+				}
 			}
+		}
+		if t, ok := e.staticSelf[x.Name]; ok {
+			return t
 		}
 		panic(evalError{"unknown parameter " + x.Name + " in modifies target of " + funcName(fn)})
 	case *ESel:
@@ -1077,6 +1102,15 @@ func (e *Enc) evalTarget(c *Ctx, t Target) []modRef {
 	var out []modRef
 	if t.Ghost {
 		b := c.eval(t.Base)
+		if n, isNamed := b.GT.(*types.Named); isNamed {
+			if _, isIface := n.Underlying().(*types.Interface); isIface {
+				ref := e.def("modref", b.T)
+				for _, f := range e.p.ghostFields(n.Obj().Name(), t.Field) {
+					out = append(out, modRef{t: t, heapName: "G." + n.Obj().Name() + "." + f, heapSort: arrSort(e.p.cs.Ghosts[n.Obj().Name()+"."+f]), ref: ref})
+				}
+				return out
+			}
+		}
 		d, _ := derefType(b.GT)
 		si := e.reg.structOf(d)
 		ref := e.def("modref", b.T)
